@@ -644,6 +644,41 @@ Definition search (q : Q) : list nat :=
 End Index.
 End Engine.
 
+(* ------------------------------------------------------------------ the obligation on the external regexp engine, executable *)
+(** For every regexp atom that reaches newMatchTree and every document: if the engine finds a match then the tree
+    distilled from the regexp's literals holds (equivalence when the distillation claims isEqual), and on \bLIT\b
+    the engine's verdict is the reference word-boundary semantics.  The distilled tree is evaluated by the mechanism
+    itself on a fresh state (= its semantics, lemma accept_sem).  Theorem C01_search_exact_partial assumes exactly this
+    boolean; the correspondence run evaluates it on every generated case. *)
+Section Obligation.
+Variable re_match : N -> list N -> bool.
+Variable tolower : N -> N.
+Variable orbit : N -> list N.
+Variable c : corpus.
+Variable freq : bool -> bool -> tri -> N.
+Fixpoint re_okb (q : Q) : bool :=
+  match q with
+  | QRegexp rid r tf cs fn _ =>
+      let '(sub, isEq, _) := distill orbit c freq cs fn r in
+      forallb (fun k =>
+        let txt := text_of c fn k in
+        let holds := accept re_match tolower c k (prepare c k sub) in
+        if isEq then Bool.eqb holds (re_match rid txt)
+        else implb (re_match rid txt) holds &&
+             match word_of r tf cs with
+             | Some w => (0 <? length w) && Bool.eqb (re_match rid txt) (word_ref tolower w txt)
+             | None => true
+             end) (seq 0 (ndocs c))
+  | QAnd l => forallb re_okb l
+  | QOr l => forallb re_okb l
+  | QNot q' => re_okb q'
+  | QTypeFileName q' => re_okb q'
+  | QTypeOther q' => re_okb q'
+  | QBoost q' => re_okb q'
+  | _ => true
+  end.
+End Obligation.
+
 (* ------------------------------------------------------------------ correspondence runner *)
 From Coq Require Strings.String Strings.Ascii.
 (** texts are shipped as Coq string literals (UTF-8 bytes) and decoded here (runner only) *)
@@ -705,12 +740,20 @@ Definition c01_model (cs : c01case) : list nat * list nat :=
 Definition row_eqb (a b : nat * list N) : bool := Nat.eqb (fst a) (fst b) && runes_eqb (snd a) (snd b).
 (** 0 = model mechanism, model specification and implementation agree; 1 = the mechanism differs from the
     implementation (model not faithful); 2 = mechanism = implementation but the specification differs (the property
-    fails on this input, reproduced by the model) *)
+    fails on this input, reproduced by the model); 3 = the hypothesis of the theorem (regexp prefilter obligation) is
+    violated on this input: the engine matches a text on which the distilled literal tree does not hold *)
+Definition c01_hyp (cs : c01case) : bool :=
+  let '(repos, docs, langs, folds, retbl, q, _) := cs in
+  let c := {| c_repos := map mk_repo repos; c_docs := map mk_doc docs; c_langs := langs |} in
+  let tl := tbl_lower folds in let ob := tbl_orbit folds in let re := tbl_re (c_docs c) retbl in
+  re_okb re tl ob c (count_freq ob c) (expand (simp c q)).
 Definition c01_verdict (cs : c01case) : N :=
   let '(_, docs, _, _, _, _, observed) := cs in
   let '(mech, spec) := c01_model cs in
+  if negb (c01_hyp cs) then 3%N else
   let row k := let d := nth k (map mk_doc docs) dflt_doc in (d_repo d, d_name d) in
   if negb (list_eqb row_eqb (map row mech) observed) then 1%N
   else if negb (list_eqb row_eqb (map row spec) observed) then 2%N else 0%N.
 Definition c01_mismatches (cs : list c01case) : list N := bad_indexes (fun x => N.eqb (c01_verdict x) 0) cs.
 Definition c01_mech_mismatches (cs : list c01case) : list N := bad_indexes (fun x => negb (N.eqb (c01_verdict x) 1)) cs.
+Definition c01_hyp_mismatches (cs : list c01case) : list N := bad_indexes (fun x => negb (N.eqb (c01_verdict x) 3)) cs.
